@@ -921,7 +921,6 @@ func builderCall(c *Ctx, call *ssa.Call, bt *ssa.Function, depth int) bool {
 	return false
 }
 
-
 // inboundBodyOnly: v is the inbound request's Body on every path; an alternative (http.NoBody, nil) is accepted only
 // on an edge taken under a test of that Body itself (r.Body == nil / == http.NoBody) — never under a test of the
 // declared length, which is -1 for chunked uploads.
